@@ -45,9 +45,10 @@ fn run_doc(o: &mut Outcome, case: &Value) {
     let mut feats = vec!["doc".to_string()];
     for (k, fp) in fps.iter().enumerate() {
         let pats: Vec<String> = fp["pats"].as_array().unwrap().iter().map(|i| pool[i.as_u64().unwrap() as usize - 1].clone()).collect();
-        let same = fp["sameLine"].as_bool().unwrap();
-        if same { if pats.len() > 1 { feats.push("patterns_same_line".into()); } } else { feats.push("patterns_continuation".into()); }
-        let files = if same { pats.join(" ") } else if pats.len() == 1 { format!("\n {}", pats[0]) } else { pats.join("\n ") };
+        let sep = fp["sameLine"].as_str().unwrap_or("sp");
+        let same = sep != "nl";
+        if same { if pats.len() > 1 { feats.push(format!("patterns_same_line_{}", sep)); } } else { feats.push("patterns_continuation".into()); }
+        let files = if same { pats.join(if sep == "tab" { "\t" } else { " " }) } else if pats.len() == 1 { format!("\n {}", pats[0]) } else { pats.join("\n ") };
         text.push_str(&format!("\nFiles: {}\nCopyright: 2020 X\nComment: fp{}\nLicense: {}\n", files, k + 1, lname(&fp["lic"])));
         if fp["inline"].as_bool().unwrap() { text.push_str(&format!(" inline text {}\n", k + 1)); }
     }
